@@ -752,7 +752,7 @@ def _pool_structure_ok():
     + wakes the waitall events inside one locked section; waitall tests and registers under the lock and waits outside"""
     sp = find("gateway_base.py", "WorkerPool.spawn")
     w = _stmts_under_lock(sp)
-    ok = len(w) == 1 and all(x in w[0] for x in ("if self._shuttingdown", "self._running.add(reply)", "_try_send_to_primary_thread(reply)", "self.execmodel.start(self._perform_spawn"))
+    ok = len(w) == 1 and all(x in w[0] for x in ("if self._shuttingdown", "self._running.add(reply)", "_try_send_to_primary_thread(reply)", "self.execmodel.start(self._perform_spawn", "except BaseException:\n            self._running.remove(reply)"))
     ts = unparse(find("gateway_base.py", "WorkerPool._try_send_to_primary_thread"))
     i1, i2 = ts.find("self._primary_thread_task = reply"), ts.find("primary_thread_task_ready.set()")
     ok = ok and 0 <= i1 < i2 and ts.count("self._primary_thread_task = reply") == 2 and "self._primary_thread_task.waitfinish()" in ts
